@@ -35,7 +35,7 @@ STATE_MEASURE = "(message type, encoding per hop, frame, scale, cov-frame class,
 PROBES = [
     "hop_compared", "kvn_xml_compared", "redump_compared", "config_default_used", "builtin_default_used", "creation_date_from_virtual_clock",
     "cov_in_local_frame", "cov_in_other_frame", "man_qsw", "man_tnw", "man_inertial", "man_continuous", "single_point_oem", "single_cov_oem", "multi_ephem_oem",
-    "omm_redumped", "tdm_two_paths", "user_defined_fields", "absent_name", "stored_example_message", "body_centred_frame", "reader_read_another_message_first",
+    "omm_redumped", "tdm_two_paths", "user_defined_fields", "absent_name", "stored_example_message", "body_centred_frame", "reader_read_another_message_first", "dump_keyword_arguments",
 ]
 REAL_VS_STUB = "real: beyond.io.ccsds writers and readers (lxml), StateVector/Orbit/Ephem/Cov/maneuvers/MeasureSet, Tle; stub: the file objects handed to dump()/load() (simulated disk), the datetime class read by Date.now (virtual wall clock); model: canonical description of the object compared at the written precision"
 ASSUMPTIONS = [
@@ -165,6 +165,11 @@ def gen_plan(rng, tier, i):
     hops = []
     for _ in range(rng.choice([1, 1, 2, 2, 3])):
         hops.append({"enc": rng.choice(ENC), "clock": [rng.randint(2000, 2035), rng.randint(1, 12), rng.randint(1, 28), rng.randint(0, 23), rng.randint(0, 59), rng.randint(0, 59), rng.randrange(1000000)], "both": rng.random() < 0.4})
+    if kind in ("opm", "omm", "oem") and rng.random() < 0.25:
+        # the documented keyword arguments of dump(): they take precedence over what the object carries
+        hops[0]["kwargs"] = {"name": "RENAMED SAT", "cospar_id": "2020-055B", "originator": "VERIF"}
+    if kind == "opm" and not spec.get("kep_flag", True):
+        hops[0].setdefault("kwargs", {})["kep"] = False
     decoy = None
     if kind in ("opm", "oem", "tdm") and rng.random() < 0.4:
         decoy = rng.choice([sc for sc in ["UTC", "TAI", "TT", "GPS"] if sc != spec["scale"]])
@@ -539,10 +544,10 @@ class World:
             except Exception:  # noqa
                 pass
 
-    def write(self, node, obj, enc, path):
+    def write(self, node, obj, enc, path, extra=None):
         """dump() to the simulated disk.  Returns (text, exception)."""
         ccsds = node.mod("beyond.io.ccsds")
-        kw = {}
+        kw = dict(extra or {})
         if enc.startswith("arg:"):
             kw["fmt"] = enc[4:]
         fp = io.StringIO()
@@ -658,7 +663,18 @@ def _run_plan(plan, ctx, w):
         path = f"/msg/{h}.{fmt}"
         with node:
             before = describe(obj, kind)
-            text, exc = w.write(node, obj, enc, path)
+            text, exc = w.write(node, obj, enc, path, extra=hop.get("kwargs"))
+        if hop.get("kwargs") and h == 0:
+            ctx.probe("dump_keyword_arguments")
+            kwa = hop["kwargs"]
+            if "name" in kwa:
+                # what must be read back is what the keyword arguments said
+                if kind in ("opm", "omm"):
+                    original["state"] = dict(original["state"], name=kwa["name"], cospar_id=kwa["cospar_id"])
+                elif kind == "oem":
+                    original["ephems"] = [dict(e, name=kwa["name"], cospar_id=kwa["cospar_id"]) for e in original["ephems"]]
+            if text is not None and "originator" in kwa and "VERIF" not in text:
+                ctx.violate("write", dict(feat, fmt=fmt, kind="originator_ignored"), f"hop {h}: dump(originator='VERIF') but the header does not carry it")
         fp_base = dict(feat, fmt=fmt, hop="first" if h == 0 else "redump")
         if exc is not None:
             ctx.violate(
@@ -693,7 +709,7 @@ def _run_plan(plan, ctx, w):
         if hop.get("both"):
             other_fmt = "xml" if fmt == "kvn" else "kvn"
             with node:
-                text2, exc2 = w.write(node, obj, "arg:" + other_fmt, f"/msg/{h}.alt.{other_fmt}")
+                text2, exc2 = w.write(node, obj, "arg:" + other_fmt, f"/msg/{h}.alt.{other_fmt}", extra=hop.get("kwargs"))
             if exc2 is not None:
                 ctx.violate("kvn-equals-xml", dict(feat, fmt=other_fmt, hop="first" if h == 0 else "redump", kind="dump_fails", exc=type(exc2).__name__), f"hop {h}: the object is written as {fmt.upper()} but dumping it as {other_fmt.upper()} raises {type(exc2).__name__}: {exc2}")
             else:
